@@ -280,6 +280,36 @@ def run(check):
         b = gen.plugin_step("b", gen.tagref("a"), extra_input={"a": dict({"s": Expr(In("s")), "i": Expr(In("i"))}, **({"ls": Expr(In("ls"))} if "ls" in doc else {})), "n": Expr(In("i"))})
         prog = Program([b, a], {"success": {"b": gen.tagref("b"), "all": Expr(In())}}, fsch)
         file_cases.append(({"id": "c02-i%04d" % j, "mode": "engine", "files": prog.files(), "scripts": gen.make_scripts([a, b], {}), "runs": [], "extra": {"engine": {"input_yaml": text}}}, text, doc))
+    # (n) a consumer of a loop's failure report (the results of the items that did succeed, keyed by item index) and one-of values
+    # whose option names end alike ("x.b" and "b"), only one of them ever produced
+    from ..model import OneOf
+    for j in range(check.pick(16, 80)):
+        rng = random.Random(derive_seed(check.seed, "c02-report", j))
+        if j % 2 == 0:
+            nn = rng.choice([3, 4, 5])
+            failing = sorted(rng.sample(range(nn - 1), rng.choice([1, 2]) if nn > 3 else 1))  # never only the last ones
+            sub = gen.sub_program("sub.yaml", 1)
+            loop = Step("loop", "foreach", sub=sub, items=Expr(In("items")), parallelism=rng.choice([1, 2]))
+            after = gen.plugin_step("after", Expr(In("tag")), extra_input={"a": Expr(Ref("loop", "failed", "error", "data"))})
+            steps = [loop, after]
+            rng.shuffle(steps)
+            prog = Program(steps, {"handled": {"a": Expr(Ref("after", "outputs", "success", "a")), "rep": Expr(Ref("loop", "failed", "error", "data"))}, "fine": {"d": Expr(Ref("loop", "outputs", "success", "data"))}}, gen.BASE_INPUT)
+            scripts = gen.make_scripts(steps, {})
+            scripts["sub_w0"]["exec_by_tag"] = {"f%d_%d" % (j, q): {"outcome": "crash"} for q in failing}
+            g = {"program": prog, "scripts": scripts, "input": {"tag": "T", "items": [{"tag": ("f%d_%d" if q in failing else "g%d_%d") % (j, q)} for q in range(nn)]}, "shape": "failure-report-data-consumer/n=%d/failing=%s" % (nn, failing),
+                 "outcome": {"loop": "partly-failed"}}
+        else:
+            na, nb = [("x.b", "b"), ("b", "x.b"), ("a.b", "c.b"), ("v1.0", "0")][(j // 2) % 4]
+            A, B = gen.plugin_step("A", Expr(In("tag"))), gen.plugin_step("B", Expr(In("tag")))
+            C = gen.plugin_step("C", Expr(In("tag")), extra_input={"a": {"v": OneOf("which", {na: Expr(Ref("A", "outputs", "success")), nb: Expr(Ref("B", "outputs", "success"))})}})
+            steps = [A, B, C]
+            rng.shuffle(steps)
+            outcome = {"B": "error"} if (j // 8) % 2 == 0 else {"A": "crash"}
+            prog = Program(steps, {"success": {"c": Expr(Ref("C", "outputs", "success"))}}, gen.BASE_INPUT)
+            g = {"program": prog, "scripts": gen.make_scripts(steps, outcome), "input": gen.base_input(rng), "shape": "one-of-option-names/%s|%s" % (na, nb), "outcome": outcome}
+        case, sem = runfam.build_case("c02-rp%04d" % j, g)
+        gates_of[case["id"]] = []
+        items.append((case, sem, g))
     # (m) loops whose item runs end at the same instant (executions released together by a gate), every item with its own value,
     # and a step that consumes the loop's result list: position i holds the result of item i
     for j in range(check.pick(60, 300)):
